@@ -127,7 +127,9 @@ func (p *printer) top(t *Top) {
 	case "raw":
 		t.Raw.Span = p.open()
 		p.t("raw")
+		t.Raw.StrSpan = p.open()
 		p.t("`" + t.Raw.Text + "`")
+		p.close(t.Raw.StrSpan)
 		p.close(t.Raw.Span)
 	case "const":
 		c := t.Const
@@ -276,6 +278,7 @@ func (p *printer) stmt(s *Stmt) {
 	case "switch":
 		sw := s.Switch
 		p.ts("switch", "(")
+		sw.OpSpan = p.open()
 		if sw.Auto != nil {
 			p.cmd(sw.Auto)
 		} else {
@@ -283,6 +286,7 @@ func (p *printer) stmt(s *Stmt) {
 			p.ts(sw.Var...)
 			p.t(")")
 		}
+		p.close(sw.OpSpan)
 		p.ts(")", "{")
 		p.ind++
 		for _, c := range sw.Cases {
